@@ -68,7 +68,13 @@ def plan(prop, tier):
                            scale=scale if big else scale * minor_scale, params=p))
 
     def miri(monitor, config, qscale, tscale, shards=16, tool="miri", params=None, flags=""):
-        steps.append(S(monitor, config, profile="dev", tool=tool, shards=shards, scale=qscale if q else tscale,
+        # reduced runs are sized relative to the quick workload in both tiers (Ctx::n); the thorough
+        # tier runs 8x the quick scale (capped below the 0.2 "reduced mode" threshold) on 16 shards
+        if monitor == "c09-length":
+            sc = qscale
+        else:
+            sc = qscale if q else min(0.19, qscale * 8)
+        steps.append(S(monitor, config, profile="dev", tool=tool, shards=shards if q else max(shards, 16), scale=sc,
                        params=params, timeout=4 * 3600, miri_flags=flags))
 
     def asan(monitor, config, qscale, tscale, shards=8, params=None):
@@ -153,9 +159,13 @@ def plan(prop, tier):
         if not q:
             miri("c06-binary", "unsafe", 0.003, 0.03, shards=8)
     elif prop == "C08":
-        cfgs = ["default", "naive", "embedded"] if q else ["default", "naive", "embedded", "optdef", "lowmem-a", "lowmem-b", "static-sse2", "static-sse41", "static-avx2", "unsafe", "strict"]
-        many("c08-laws", cfgs, shards=16, scale=20.0 if q else 3.0, main=cfgs)
+        cfgs = ["default", "naive", "embedded", "static-sse2", "static-sse41"] if q else \
+            ["default", "naive", "embedded", "optdef", "lowmem-a", "lowmem-b", "static-sse2", "static-sse41", "static-avx2", "unsafe", "strict"]
+        many("c08-laws", cfgs, shards=16, scale=20.0 if q else 3.0, main=("default", "naive", "embedded"), minor_scale=0.1, minor_shards=8)
         many("c08-laws", ["default"], profile="dbg", shards=4, scale=0.25)
+        # 32-bit and big-endian targets (pseudo-SIMD paths read the body in native-endian words)
+        miri("c08-laws", "naive", 0.0001, 0.001, shards=4, tool="miri-s390x")
+        miri("c08-laws", "naive", 0.0001, 0.001, shards=4, tool="miri-i686")
     elif prop == "C09":
         steps.append(S("c09-length", "default", shards=16))
         steps.append(S("c09-length", "default", profile="dbg", shards=1, scale=0.5))
@@ -164,6 +174,11 @@ def plan(prop, tier):
         # single update() call with a slice longer than u32::MAX (shared with C11)
         steps.append(S("c11-huge-slice", "default", shards=1 if q else 2, params={"property": "C09"}, timeout=2 * 3600))
         miri("c09-length", "unsafe", 0.5, 0.5, shards=1)
+        # the portable (non-clz) search is only compiled for other architectures: run the boundary
+        # set on a big-endian non-x86 target under Miri
+        miri("c09-length", "naive", 0.5, 0.5, shards=1, tool="miri-s390x")
+        # hashes produced by the stream helper carry the code of the bytes delivered
+        steps.append(S("c12-stream", "default", shards=8, scale=0.5, params={"property": "C09"}))
         if not q:
             steps.append(S("c09-length", "naive", shards=16))
             steps.append(S("c09-length", "unsafe", shards=16))
@@ -193,6 +208,9 @@ def plan(prop, tier):
         cfgs = ["default", "naive"] if q else ["default", "naive", "unsafe", "lowmem-a", "static-avx2", "strict"]
         many("c12-stream", cfgs, shards=16, scale=2.0, main=cfgs)
         many("c12-stream", ["default", "naive"], profile="dbg", shards=8, scale=0.5)
+        # real pipes, a slow writer, and signals that make read(2) return EINTR
+        many("c12-pipe", ["default", "naive"] if q else ["default", "naive", "unsafe", "static-avx2"], shards=8, main=("default", "naive", "unsafe", "static-avx2"))
+        many("c12-pipe", ["default"], profile="dbg", shards=4, scale=0.5, main=("default",))
         miri("c12-stream", "default-avx2", 0.02, 0.2)
         if not q:
             miri("c12-stream", "unsafe", 0.01, 0.1)
@@ -224,6 +242,9 @@ def plan(prop, tier):
         many("c15-generated", gcfgs, shards=16, scale=4.0, main=gcfgs)
         many("c05-parse", ["strict"], profile="dbg", shards=4, scale=0.5, params=P, main=())
         many("c15-generated", ["strict"], profile="dbg", shards=4, scale=0.5, main=())
+        # the serde visitors are parse entry points too: with the strict parser they must apply the same gates
+        many("c16-mock", ["serde-strict", "serde-buf-strict"], shards=8, params=P, main=("serde-strict", "serde-buf-strict"))
+        many("c16-formats", ["serde-strict"], shards=8, params=P, main=("serde-strict",))
     elif prop == "C16":
         cfgs = ["serde", "serde-strict", "serde-buf", "serde-buf-strict"]
         if not q:
@@ -263,6 +284,9 @@ def plan(prop, tier):
         for c in cfgs:
             # 100 processes: every (variant, operation) pair is some process's very first crate call
             steps.append(S("c18-alloc", c, shards=100, scale=1.0 if c == "alloc-default" else 0.5))
+        # debug-assertion builds may contain extra (allocating) cross-checks
+        for c in (["alloc-default", "alloc-naive"] if q else cfgs):
+            steps.append(S("c18-alloc", c, profile="dbg", shards=20, scale=0.25))
     elif prop == "C17":
         cfgs = ["default", "unsafe", "naive", "unsafe-naive", "static-sse2", "static-sse41", "static-avx2",
                 "unsafe-static-avx2", "strict", "serde-strict"]
@@ -281,14 +305,14 @@ def plan(prop, tier):
             ["default-avx2", "unsafe-avx2", "unsafe-naive", "unsafe", "default", "default-sse3", "default-ssse3", "default-sse41",
              "naive", "static-sse41", "unsafe-static-avx2", "unsafe-lowmem-b", "serde-strict-avx2"]
         for c in mcfgs:
-            steps.append(S("c17-fuzz", c, profile="dev", tool="miri", shards=10, scale=0.002 if q else 0.03, timeout=4 * 3600))
+            steps.append(S("c17-fuzz", c, profile="dev", tool="miri", shards=10 if q else 16, scale=0.002 if q else 0.02, timeout=4 * 3600))
         # every compiled SIMD back end called directly under Miri (hooks H4/H5)
         P17 = {"property": "C17"}
         for c in (["default-avx2"] if q else ["default-avx2", "unsafe-avx2", "static-sse41"]):
             pb = dict(P17, expect_dist_backends=DIST_BACKENDS.get(c, 6 if "avx2" in c else 3))
             pa = dict(P17, expect_agg_backends=AGG_BACKENDS.get(c, 5 if "avx2" in c else 2))
-            steps.append(S("c02-body", c, profile="dev", tool="miri", shards=16, scale=0.0005 if q else 0.005, params=pb, timeout=4 * 3600))
-            steps.append(S("c01-agg", c, profile="dev", tool="miri", shards=8, scale=0.0005 if q else 0.005, params=pa, timeout=4 * 3600))
+            steps.append(S("c02-body", c, profile="dev", tool="miri", shards=16, scale=0.0005 if q else 0.004, params=pb, timeout=4 * 3600))
+            steps.append(S("c01-agg", c, profile="dev", tool="miri", shards=8 if q else 16, scale=0.0005 if q else 0.004, params=pa, timeout=4 * 3600))
         # AddressSanitizer: bigger workloads than Miri can afford
         acfgs = ["default", "unsafe"] if q else ["default", "unsafe", "static-sse41", "unsafe-static-avx2", "naive", "unsafe-lowmem-b", "serde-unsafe-strict"]
         for c in acfgs:
